@@ -8,6 +8,7 @@ A shape is a tuple of tokens, in response order:
 """
 from hypothesis import strategies as st
 
+from . import env
 from . import survey as S
 
 CATLIKE = ("cat", "cat_date", "datetime", "text", "numeric", "logical")
@@ -32,6 +33,9 @@ SHAPES_3D = [
 def scenario_st(draw, shapes, max_n=24, weight_kinds=("none", "int", "dyadic", "zeroheavy"),
                 measure="maybe", numeric="some", max_valid=4, max_items=3, stats=None,
                 allow_order_key=True, min_valid=1, skew=True, min_n=0):
+    if env.tier() == "thorough":
+        # deeper bounds in the thorough tier (reported in the evidence file)
+        max_n, max_valid, max_items = max(max_n, 48), max_valid + 2, max_items + 1
     n = draw(S.n_st(max_n, min_n))
     shape = draw(st.sampled_from(shapes))
     weights = draw(S.weights_st(n, weight_kinds))
